@@ -195,6 +195,13 @@ impl Transport for SimTransport {
     }
 }
 
+struct SeededDraws(Mutex<Rng>);
+impl utils::verif::Hooks for SeededDraws {
+    fn rand_usize(&self) -> Option<usize> {
+        Some(self.0.lock().unwrap().next_u64() as usize)
+    }
+}
+
 fn http_client() -> Arc<reqwest_middleware::ClientWithMiddleware> {
     static C: std::sync::OnceLock<Arc<reqwest_middleware::ClientWithMiddleware>> = std::sync::OnceLock::new();
     C.get_or_init(|| Arc::new(cas_client::build_http_client(cas_client::RetryConfig::default()).expect("http client")))
@@ -420,9 +427,12 @@ impl Engine for ReconEngine {
         let passes = p.passes.clone();
         let offset = p.offset_into_first;
         let dir2 = dir.clone();
+        let sched_seed = p.schedule_seed;
         let results: Vec<(bool, Result<u64, String>, Vec<u8>, u64)> = rt.block_on(async move {
             let start = tokio::time::Instant::now();
             let prev = verif_transport::install(Some(transport));
+            // the cache's eviction draw must come from the seed as well
+            let hprev = utils::verif::install(Some(Arc::new(SeededDraws(Mutex::new(Rng::new(sched_seed ^ 0xE71C7))))));
             let tp = xet_threadpool::ThreadPool::from_current_runtime();
             let client = RemoteClient::verif_new(tp, hc, cache);
             let mut out = Vec::new();
@@ -444,6 +454,7 @@ impl Engine for ReconEngine {
                 out.push((*parallel, r, data, start.elapsed().as_millis() as u64));
             }
             verif_transport::install(prev);
+            utils::verif::install(hprev);
             out
         });
         drop(rt);
